@@ -496,10 +496,36 @@ fn run_lattice_case(case_seed: u64, rep: &mut Report, verbose: bool) {
                 }
                 let u = pt(&mut rng);
                 let mut v = pt(&mut rng);
+                let mut q = q;
                 if rng.chance(1, 4) {
                     // parallel (or identical) by construction
                     let k = *rng.pick(&[1i64, -1, 2, -3]);
                     v = (u.0 + k * (q.0 - p.0), u.1 + k * (q.1 - p.1));
+                } else if rng.chance(1, 3) {
+                    // nearly parallel lattice lines: directions (k, 1) and (k+1, 1) have cross product -1, so the angle is
+                    // about 1/k^2 - from 0.1 rad down to 1e-6 rad, far above the 1e-9 band: they must intersect
+                    let k = *rng.pick(&[3i64, 10, 30, 100, 150, 300, 500, 700, 1000]);
+                    let (sx, sy) = (*rng.pick(&[1i64, -1]), *rng.pick(&[1i64, -1]));
+                    let swap = rng.chance(1, 2);
+                    let d1 = if swap { (sy, sx * k) } else { (sx * k, sy) };
+                    let d2 = if swap { (sy, sx * (k + 1)) } else { (sx * (k + 1), sy) };
+                    let base = (rng.range_i64(-200, 200), rng.range_i64(-200, 200));
+                    // both through `base` (intersection inside the box), the second one optionally shifted by one step
+                    let sh = if rng.chance(1, 2) { (0, 0) } else { (*rng.pick(&[0i64, 1]), *rng.pick(&[0i64, 1, -1])) };
+                    q = (p.0 + d1.0, p.1 + d1.1);
+                    let p0 = (base.0 - d1.0 / 2, base.1 - d1.1 / 2);
+                    let pq = (p0.0 + d1.0, p0.1 + d1.1);
+                    let u0 = (base.0 + sh.0 - d2.0 / 2, base.1 + sh.1 - d2.1 / 2);
+                    let uv = (u0.0 + d2.0, u0.1 + d2.1);
+                    cx.rep.inc("near_parallel_lattice_pairs");
+                    let (dd1, a1, b1, c1) = lattice_line(&mut rng, p0, pq);
+                    let (dd2, a2, b2, c2) = lattice_line(&mut rng, u0, uv);
+                    let cross = a1 as i128 * b2 as i128 - a2 as i128 * b1 as i128;
+                    let x = (b1 as i128 * c2 as i128 - b2 as i128 * c1 as i128) as f64 / cross as f64;
+                    let y = (a2 as i128 * c1 as i128 - a1 as i128 * c2 as i128) as f64 / cross as f64;
+                    judge_ll(&mut cx, dd1, dd2, Some(false), x.abs() <= 1000.0 && y.abs() <= 1000.0);
+                    let _ = q;
+                    return;
                 }
                 if v == u {
                     v.0 += 1;
